@@ -442,6 +442,37 @@ def r5_abort(ctx):
                             f'`{nm}.done()` polled by the worker loop belongs to a thread-side future (not loop.run_in_executor): it can flip between the `empty()` and `done()` checks and a worker exits with the last chunk still queued',
                         )
     r5b_completion_flag(ctx, 'C09.R5')
+    from . import shared as _sh9
+
+    _sh9.run_flags_are_per_run(ctx, 'C09.R5')
+    # the producer's outcome is observed on every path that goes on to publish the snapshot
+    from ..report import Relabel as _RL9
+    from .c03 import r1_snapshot_last
+
+    r1_snapshot_last(_RL9(ctx, 'C09.R5'))
+    # one adapter object serves the producer, the workers and all loader threads at once: outside __init__ its methods
+    # store nothing on it (a "last key / last cipher" memo updated in two steps pairs one thread's key with another's cipher)
+    import ast as _ast
+
+    _n = 0
+    for _c in ctx.corpus.module('adapters').classes.values():
+        for _m in _c.methods.values():
+            if _m.name == '__init__':
+                continue
+            _n += 1
+            _st = [a for a in _ast.walk(_m.node) if isinstance(a, (_ast.Assign, _ast.AugAssign, _ast.AnnAssign)) and any(isinstance(t, _ast.Attribute) and isinstance(t.value, _ast.Name) and t.value.id == 'self' for t in (a.targets if isinstance(a, _ast.Assign) else [a.target]))]
+            if _st:
+                ctx.analysed(_m)
+            ctx.check(
+                not _st,
+                'C09.R6',
+                f'{func_label(_m)}|adapter-methods-store-nothing-on-the-adapter',
+                loc(_m, _st[0]) if _st else loc(_m, _m.node),
+                f'{_c.name}.{_m.name}: stores nothing on the shared adapter object',
+                f'{_c.name}.{_m.name}: `{src(_st[0], 50) if _st else ""}` updates the adapter object, which all threads of a command share, without a lock: interleaved calls see each other\'s half-updated state '
+                '(a snapshot fails to decrypt and is taken for another user\'s - its files silently drop out of the restore)',
+            )
+    ctx.floor('C09.R6', 'adapter methods', _n, 10)
     from .shared import queue_put_retries_until_done
 
     queue_put_retries_until_done(ctx, 'C09.R5')
